@@ -15,6 +15,7 @@ Lemma index_len_4 : bip32_index_len = 4%nat. Proof. reflexivity. Qed.
 Lemma index_max_val : bip32_index_max = 2 ^ 32 - 1. Proof. reflexivity. Qed.
 Lemma hardened_bit_31 : bip32_hardened_bit = 31. Proof. reflexivity. Qed.
 Lemma priv_prefix_0 : slip10_priv_prefix = [0]. Proof. reflexivity. Qed.
+Lemma retry_prefix_1 : slip10_retry_prefix = [1]. Proof. reflexivity. Qed.
 Lemma seed_min_16 : slip10_seed_min_len = 16%nat. Proof. reflexivity. Qed.
 Lemma fprint_len_4 : bip32_fprint_len = 4%nat. Proof. reflexivity. Qed.
 Lemma chaincode_len_32 : bip32_chaincode_len = 32%nat. Proof. reflexivity. Qed.
